@@ -1,1 +1,226 @@
-//! C19 monitor (filled in below)
+//! C19 — header boxes and configuration records follow their specifications' layouts.
+
+use super::*;
+use crate::bmff::BoxNode;
+use crate::specdec as sd;
+
+fn v(sig: String, detail: String) -> Violation {
+    Violation::new("C19", sig, detail)
+}
+
+pub struct Expect {
+    pub width: u32,
+    pub height: u32,
+    pub movie_timescale: Option<u32>,
+    pub media_timescale: u32,
+    pub n_tracks: usize,
+}
+
+fn walk<'a>(n: &'a BoxNode, path: String, f: &mut dyn FnMut(&'a BoxNode, &str)) {
+    let p = format!("{}/{}", path, n.typ_str());
+    f(n, &p);
+    for c in &n.children {
+        walk(c, p.clone(), f);
+    }
+}
+
+/// Strictly decode every fixed-layout box below `tree`; `kind` = "file" | "init" | "segment".
+pub fn check_stream(bytes: &[u8], kind: &str, exp: Option<&Expect>, obs: &mut Obs) -> Vec<Violation> {
+    let tree = bmff::parse_tree(bytes);
+    let mut dev: Vec<String> = Vec::new();
+    let mut tkhds: Vec<sd::TkhdS> = Vec::new();
+    let mut mvhd: Option<sd::MvhdS> = None;
+    let mut mdhds: Vec<sd::MdhdS> = Vec::new();
+    let mut handlers: Vec<[u8; 4]> = Vec::new();
+    let mut ventries: Vec<sd::VisualEntry> = Vec::new();
+    let mut boxes = 0u64;
+    for top in &tree.top {
+        walk(top, String::new(), &mut |n, path| {
+            boxes += 1;
+            let p = n.payload(bytes);
+            let before = dev.len();
+            match &n.typ {
+                b"ftyp" => {
+                    sd::ftyp(p, &mut dev);
+                }
+                b"mvhd" => mvhd = sd::mvhd(p, &mut dev),
+                b"tkhd" => {
+                    if let Some(t) = sd::tkhd(p, &mut dev) {
+                        tkhds.push(t);
+                    }
+                }
+                b"mdhd" => {
+                    if let Some(m) = sd::mdhd(p, &mut dev) {
+                        mdhds.push(m);
+                    }
+                }
+                b"hdlr" if path.ends_with("/mdia/hdlr") => {
+                    if let Some(h) = sd::hdlr_media(p, &mut dev) {
+                        handlers.push(h.handler);
+                    }
+                }
+                b"hdlr" => {
+                    sd::hdlr(p, &mut dev);
+                }
+                b"vmhd" => sd::vmhd(p, &mut dev),
+                b"smhd" => sd::smhd(p, &mut dev),
+                b"dref" => sd::dref(p, &mut dev),
+                b"trex" => sd::trex(p, &mut dev),
+                b"mfhd" => sd::mfhd(p, &mut dev),
+                b"avc1" | b"hvc1" | b"hev1" | b"av01" | b"vp09" => {
+                    if let Some(e) = sd::visual_entry(n.bytes(bytes), &mut dev) {
+                        for (t, cp) in &e.children {
+                            match t {
+                                b"avcC" => {
+                                    sd::avcc(cp, &mut dev);
+                                }
+                                b"hvcC" => {
+                                    sd::hvcc(cp, &mut dev);
+                                }
+                                b"av1C" => {
+                                    sd::av1c(cp, &mut dev);
+                                }
+                                b"vpcC" => {
+                                    sd::vpcc(cp, &mut dev);
+                                }
+                                _ => {}
+                            }
+                        }
+                        ventries.push(e);
+                    }
+                }
+                b"mp4a" | b"Opus" => {
+                    if let Some(e) = sd::audio_entry(n.bytes(bytes), &mut dev) {
+                        for (t, cp) in &e.children {
+                            match t {
+                                b"esds" => {
+                                    sd::esds(cp, &mut dev);
+                                }
+                                b"dOps" => {
+                                    if let Some(d) = sd::dops(cp, &mut dev) {
+                                        if d.channels as u16 != e.channels && e.channels <= 255 {
+                                            dev.push("dOps: OutputChannelCount differs from the sample entry channelcount".into());
+                                        }
+                                        if d.family != 0 && d.mapping.len() == d.channels as usize && (d.stream_count == 0 || d.coupled_count > d.stream_count) {
+                                            dev.push("dOps: stream/coupled counts inconsistent".into());
+                                        }
+                                    }
+                                }
+                                _ => {}
+                            }
+                        }
+                        if &e.typ == b"Opus" && e.rate_fixed != 48_000 << 16 {
+                            dev.push("Opus sample entry: samplerate not 48000".into());
+                        }
+                    }
+                }
+                b"tfhd" | b"tfdt" | b"trun" => {}
+                _ => {}
+            }
+            let _ = before;
+        });
+    }
+    // fragment-level records are decoded (strictly) by the fragment parser
+    if kind == "segment" {
+        let f = bmff::parse_fragment(bytes, &tree, None);
+        for e in &f.errors {
+            dev.push(format!("fragment: {}", e.chars().filter(|c| !c.is_ascii_digit()).collect::<String>()));
+        }
+        if f.tfdt_version > 1 {
+            dev.push("tfdt: unknown version".into());
+        }
+        if f.trun_version > 1 {
+            dev.push("trun: unknown version".into());
+        }
+        if f.trun_version == 0 && f.samples.iter().any(|s| s.cts_off > i32::MAX as i64) {
+            // version 0 offsets are unsigned: values with the top bit set were meant negative
+            dev.push("trun: version 0 with offsets that only make sense as signed".into());
+        }
+        if f.track_id == 0 {
+            dev.push("tfhd: track_ID 0".into());
+        }
+    }
+    let mut out = Vec::new();
+    dev.sort();
+    dev.dedup();
+    for d in &dev {
+        out.push(v(format!("{}|{}", kind, d), format!("{} stream: {}", kind, d)));
+    }
+    // recovered values
+    if kind != "segment" {
+        if let Some(m) = &mvhd {
+            if m.matrix != sd::UNITY {
+                out.push(v(format!("{}|mvhd: matrix not identity", kind), format!("{:x?}", m.matrix)));
+            }
+            if m.rate != 0x0001_0000 || m.volume != 0x0100 {
+                out.push(v(format!("{}|mvhd: rate/volume not 1.0", kind), format!("rate {:#x} volume {:#x}", m.rate, m.volume)));
+            }
+            if let Some(e) = exp {
+                if let Some(ts) = e.movie_timescale {
+                    if m.timescale != ts {
+                        out.push(v(format!("{}|mvhd: timescale", kind), format!("movie timescale {} expected {}", m.timescale, ts)));
+                    }
+                }
+            }
+            // track IDs are read positionally (lenient reader) so that a tkhd with a wrong size
+            // does not hide ID problems
+            let ids: Vec<u32> = bmff::parse_movie(bytes, &tree).tracks.iter().map(|t| t.track_id).collect();
+            if ids.iter().any(|&i| i == 0) {
+                out.push(v(format!("{}|tkhd: track_ID 0", kind), format!("{:?}", ids)));
+            }
+            let mut s = ids.clone();
+            s.sort();
+            s.dedup();
+            if s.len() != ids.len() {
+                out.push(v(format!("{}|tkhd: duplicate track IDs", kind), format!("{:?}", ids)));
+            }
+            if let Some(mx) = ids.iter().max() {
+                if m.next_track_id <= *mx {
+                    out.push(v(
+                        format!("{}|mvhd: next_track_ID not above all track IDs|tracks={}", kind, ids.len()),
+                        format!("next_track_ID {} with track IDs {:?}", m.next_track_id, ids),
+                    ));
+                }
+            }
+        }
+        for t in &tkhds {
+            if t.matrix != sd::UNITY {
+                out.push(v(format!("{}|tkhd: matrix not identity", kind), format!("{:x?}", t.matrix)));
+            }
+        }
+        if let Some(e) = exp {
+            for m in &mdhds {
+                if m.timescale != e.media_timescale {
+                    out.push(v(format!("{}|mdhd: timescale", kind), format!("media timescale {} expected {}", m.timescale, e.media_timescale)));
+                }
+            }
+            if e.width <= 65_535 && e.height <= 65_535 {
+                // video tkhd: the one belonging to the 'vide' handler = first track here
+                if let (Some(t), true) = (tkhds.first(), handlers.first() == Some(b"vide")) {
+                    let (w, wf) = sd::fixed16(t.width);
+                    let (h, hf) = sd::fixed16(t.height);
+                    if (w, h) != (e.width, e.height) || !wf || !hf {
+                        out.push(v(format!("{}|tkhd: width/height", kind), format!("tkhd {}x{} (16.16 {:#x} {:#x}) expected {}x{}", w, h, t.width, t.height, e.width, e.height)));
+                    }
+                }
+                for ve in &ventries {
+                    if (ve.width as u32, ve.height as u32) != (e.width, e.height) {
+                        out.push(v(format!("{}|visual sample entry: width/height", kind), format!("{}x{} expected {}x{}", ve.width, ve.height, e.width, e.height)));
+                    }
+                }
+            }
+            if handlers.len() != e.n_tracks {
+                out.push(v(format!("{}|hdlr: count", kind), format!("{} media handlers for {} tracks", handlers.len(), e.n_tracks)));
+            }
+        }
+        if handlers.first().map(|h| h != b"vide").unwrap_or(false) {
+            out.push(v(format!("{}|hdlr: first track not 'vide'", kind), format!("{:?}", handlers)));
+        }
+        if handlers.get(1).map(|h| h != b"soun").unwrap_or(false) {
+            out.push(v(format!("{}|hdlr: second track not 'soun'", kind), format!("{:?}", handlers)));
+        }
+    }
+    obs.count("boxes_decoded", boxes);
+    obs.count(&format!("{}_streams", kind), 1);
+    out
+}
